@@ -800,6 +800,16 @@ fn history_case(ctx: &Ctx, dir: &std::path::Path, case: u64, seed: u64, rep: &mu
         // the CMake layout: the generator rewrites an included file along with the manifest
         world.ropts.split_include = Some("rules.ninja".into());
     }
+    if regen_c02 {
+        // the same layout with a generator that leaves the manifest alone when its text is unchanged:
+        // a generation that only differs in the included half must still be reloaded
+        // (drawn from a private stream so that the other histories of this seed stay what they were)
+        let mut r2 = Rng::new(rng.clone().next() ^ 0x5eed_c02);
+        if r2.chance(1, 2) {
+            world.ropts.split_include = Some("rules.ninja".into());
+            world.st.gen_write_if_changed = true;
+        }
+    }
     world.write_manifest();
 
     let mut hist = Hist { ops: vec![], builds: 0, edits_between: false, sig: fnv(b"hist") };
@@ -845,10 +855,15 @@ fn history_case(ctx: &Ctx, dir: &std::path::Path, case: u64, seed: u64, rep: &mu
         }
         let proj_before = world.proj.clone();
         let pred = predict_inv(&world, &inv);
+        let manifest_tick_before = world.st.disk.get(&world.proj.manifest).map(|f| f.tick);
         let (w, out) = run_inv(world, &inv);
         world = w;
         rep.evaluations += 1;
         hist.builds += 1;
+        if world.st.gen_write_if_changed && out.epochs >= 2 && world.st.disk.get(&world.proj.manifest).map(|f| f.tick) == manifest_tick_before {
+            // the generator ran, left the top-level manifest untouched, and n2 loaded again
+            rep.count("reloads_with_untouched_manifest", 1);
+        }
         hist.ops.push(J::obj().with("build", inv.to_json()).with("started", J::Arr(out.started.iter().map(|v| J::strs(v.iter().cloned())).collect())).with("result", J::s(format!("{:?}", out.result))));
         if matches!(out.result, InvResult::Crashed) {
             rep.count("crashed_builds_in_history", 1);
